@@ -33,6 +33,12 @@ def run(S):
                     dict(check_stability=True, use_preconditioned_inner_product_for_cg=True)]
     for cfg in configs:
         _tr(S, cfg)
+    # "under the parameters it was asked to solve for": the entry point that installs the parameters and hands over to the
+    # minimiser (contract shared with C19): new parameters are on the objective when the minimiser starts and after return,
+    # also on a load step that leaves the boundary-condition slot unchanged
+    from props.C19 import _driver
+    for warm, upd, hold in ((True, True, False), (False, True, False), (True, False, False), (True, True, True)):
+        _driver(S, 'optimism/EquationSolver.py', 'nonlinear_equation_solve', 'EquationSolver.nonlinear_equation_solve', warm, upd, hold=hold)
 
 
 def _tr(S, cfg):
